@@ -34,6 +34,23 @@ fn logger() -> slog::Logger {
     slog::Logger::root(slog::Discard, slog::o!())
 }
 
+/// A fresh client over the process-wide downloader decorator (one per trace execution).
+pub fn build_client(node: &Node) -> Client {
+    let genesis_vk = GenesisVerifier::create_deterministic_verifier()
+        .to_ed25519_verification_key()
+        .to_json_hex()
+        .expect("genesis vk");
+    let anc_vk = signer_a().verification_key().to_json_hex().expect("ancillary vk");
+    let _g = node.rt.enter();
+    ClientBuilder::new(AggregatorDiscoveryType::Url("http://127.0.0.1:9/aggregator".into()))
+        .set_genesis_verification_key(GenesisVerificationKey::JsonHex(genesis_vk))
+        .with_http_file_downloader(node.dl.clone())
+        .set_ancillary_verification_key(anc_vk)
+        .with_logger(logger())
+        .build()
+        .unwrap_or_else(|e| crate::common::harness_error(&format!("ClientBuilder::build: {e:?}")))
+}
+
 pub fn node() -> &'static Node {
     static NODE: OnceLock<Node> = OnceLock::new();
     NODE.get_or_init(|| {
